@@ -28,6 +28,7 @@ type standinResult struct {
 	Seconds  float64  `json:"seconds"`
 	Label    string   `json:"label"`
 	Error    string   `json:"error,omitempty"`
+	Crash    string   `json:"crash,omitempty"`
 }
 
 var standinProps = map[string]bool{"C01": true, "C02": true, "C03": true, "C04": true, "C05": true, "C06": true, "C07": true, "C08": true, "C09": true, "C10": true, "C11": true, "C13": true, "C14": true, "C15": true, "C16": true}
@@ -45,7 +46,8 @@ func (cc *checkCtx) runStandin() *standinResult {
 	defer cancel()
 	cmd := exec.CommandContext(ctx, "go", "test", "-overlay", ovFile, "-vet=off", "-count=1", "-timeout", "600s", "-run", "^TestGovcStandin$", "-v", ".")
 	cmd.Dir = cc.s.repo
-	cmd.Env = append(os.Environ(), "GOFLAGS=-mod=mod", "GOPROXY=off", "GOSUMDB=off", "GOTOOLCHAIN=local", "GOVC_STANDIN="+cc.prop, "GOVC_SEED="+strconv.Itoa(cc.seed))
+	caseFile := filepath.Join(cc.s.smt.dir, "standin-case.txt")
+	cmd.Env = append(os.Environ(), "GOVC_CASEFILE="+caseFile, "GOFLAGS=-mod=mod", "GOPROXY=off", "GOSUMDB=off", "GOTOOLCHAIN=local", "GOVC_STANDIN="+cc.prop, "GOVC_SEED="+strconv.Itoa(cc.seed))
 	var buf bytes.Buffer
 	cmd.Stdout = &buf
 	cmd.Stderr = &buf
@@ -76,12 +78,28 @@ func (cc *checkCtx) runStandin() *standinResult {
 		}
 	}
 	if res.Cases == 0 && err != nil {
-		// the harness itself did not run (build failure, crash): report, never a pass
-		tail := out
-		if len(tail) > 1500 {
-			tail = tail[len(tail)-1500:]
+		if i := strings.Index(out, "fatal error:"); i >= 0 && !strings.Contains(out, "[build failed]") {
+			// the code under test took the whole process down (stack overflow, out of memory, concurrent map
+			// access): not recoverable by any caller, a failing case of its own
+			head := out[i:]
+			if len(head) > 1200 {
+				head = head[:1200]
+			}
+			last := ""
+			if b, e := os.ReadFile(caseFile); e == nil {
+				last = strings.TrimSpace(string(b))
+			}
+			res.Fails = append(res.Fails, fmt.Sprintf("process-crash/%s :: the process died while this case ran: %s", last, strings.ReplaceAll(firstLine(head), "\n", " ")))
+			res.Crash = head
+			res.Cases = 1
+		} else {
+			// the harness itself did not run (build failure): report, never a pass
+			tail := out
+			if len(tail) > 1500 {
+				tail = tail[len(tail)-1500:]
+			}
+			res.Error = "stand-in did not complete: " + err.Error() + "\n" + tail
 		}
-		res.Error = "stand-in did not complete: " + err.Error() + "\n" + tail
 	}
 	return res
 }
